@@ -498,7 +498,11 @@ func (p *c08) Run(raw json.RawMessage) eng.Result {
 		res.AddCase(sig, fmt.Sprintf("from %q Find(%q): %s", renderSegs(start, ""), path, what), c08Case{Part: "one", Tree: c.Tree, Store: c.Store, Start: renderSegs(start, ""), Path: path})
 	}
 	checkPresent := func(n c08Node, start []c08Seg, path, variant string) {
-		if c.Only && (path != c.Path || renderSegs(start, "") != c.Start) {
+		if c.Only && renderSegs(start, "") != c.Start {
+			return
+		}
+		if c.Only && path != c.Path && !strings.Contains(c.Path, renderSegs(n.segs[len(n.segs)-1:], "")) {
+			// neither the path asked for nor one that ends at this node (the path the library renders for it)
 			return
 		}
 		env := newC08Env(c.Tree, c.Store)
